@@ -530,21 +530,20 @@ nfa, with no epsilon transition
         False
 
         """
-        enfa = self.copy()
+        # Flipping the final states is only correct on a deterministic
+        # automaton
+        dfa = self.to_deterministic()
+        enfa = dfa.copy()
         trash = State("TrashNode")
         enfa.add_final_state(trash)
-        for state in self._states:
-            if state in self._final_states:
+        for state in dfa.states:
+            if state in dfa.final_states:
                 enfa.remove_final_state(state)
             else:
                 enfa.add_final_state(state)
-        for state in self._states:
+        for state in dfa.states:
             for symbol in self._input_symbols:
-                state_to = []
-                eclose = self.eclose(state)
-                for state0 in eclose:
-                    state_to += self._transition_function(state0, symbol)
-                if not state_to:
+                if not dfa(state, symbol):
                     enfa.add_transition(state, symbol, trash)
         for symbol in self._input_symbols:
             enfa.add_transition(trash, symbol, trash)
